@@ -532,6 +532,11 @@ func (x *Exec) contractCall(callee *types.Func, d *Decl, args []Value, st *State
 				}
 			}
 		}
+		if ov, isOp := res.(OpaqueV); isOp {
+			opaqueSeq++
+			ov.ID = opaqueSeq
+			res = ov
+		}
 		rvals = []Value{res}
 	default:
 		t := &TupleV{}
@@ -603,6 +608,12 @@ func callMemoKey(callee *types.Func, args []Value) string {
 		case *StrV:
 			if l, ok := v.isLit(); ok {
 				fmt.Fprintf(&sb, "|l%q", l)
+			} else if v.Alts != nil && v.Fmt == nil && v.Cases == nil && !v.Opaque {
+				// a finite choice is identified by its alternatives (hash-consed conditions)
+				sb.WriteString("|a")
+				for _, a := range v.Alts {
+					fmt.Fprintf(&sb, "%d:%q,", a.Cond.id, a.S)
+				}
 			} else {
 				fmt.Fprintf(&sb, "|t%p", v)
 			}
@@ -2099,6 +2110,20 @@ func (x *Exec) valuesEqual(l, r Value, st *State) *Term {
 	case *MapV:
 		if _, ok := r.(NilV); ok {
 			return tFalse
+		}
+	}
+	if a, ok := l.(OpaqueV); ok {
+		if b, ok := r.(OpaqueV); ok && a.ID != 0 && b.ID != 0 && x.inSpec() {
+			// two unknown values (spec only): the same value when they stem from the same call (A8), otherwise
+			// nothing is known about their equality
+			if a.ID == b.ID {
+				return tTrue
+			}
+			lo, hi := a.ID, b.ID
+			if lo > hi {
+				lo, hi = hi, lo
+			}
+			return mkVar(fmt.Sprintf("opaque_eq_%d_%d", lo, hi), SBool)
 		}
 	}
 	unsup("comparison of %T and %T", l, r)
